@@ -7,6 +7,7 @@ import (
 	"fmt"
 	"go/token"
 	"go/types"
+	"io"
 	"runtime"
 	"sort"
 	"strings"
@@ -51,6 +52,7 @@ type Config struct {
 	SampleEvery   int // keep every n-th passing path's model as a conformance sample
 	SampleCap     int
 	Trace         bool
+	Thorough      bool
 }
 
 type PathSample struct {
@@ -141,34 +143,43 @@ func (e *Engine) solver() *Solver {
 			e.sh.mu.Unlock()
 		}
 		e.S = NewSolver(Z3, e.cfg.FeasTimeoutMs)
-		e.frameOn = false
-		e.asserted = 0
 	}
 	return e.S
 }
 
-// sync brings the solver's assertion stack in line with the path condition.
-func (e *Engine) sync() *Solver {
-	s := e.solver()
-	if !e.frameOn {
-		s.Push()
-		e.frameOn = true
-		e.asserted = 0
+func (e *Engine) endPathFrame() {}
+
+// slice returns the path-condition terms that (transitively) share a variable with
+// the query term (constraint independence): the rest of the path condition is
+// satisfiable on its own (every branch taken was checked) and cannot affect the verdict.
+func (e *Engine) slice(extra *Term) []*Term {
+	if extra == nil {
+		return e.pc
 	}
-	for e.asserted < len(e.pc) {
-		s.Assert(e.pc[e.asserted])
-		e.asserted++
+	rel := extra.vs
+	used := make([]bool, len(e.pc))
+	var out []*Term
+	for changed := true; changed; {
+		changed = false
+		for i, p := range e.pc {
+			if used[i] || len(p.vs) == 0 {
+				continue
+			}
+			if intersects(p.vs, rel) {
+				used[i] = true
+				out = append(out, p)
+				rel = mergeVars(rel, p.vs)
+				changed = true
+			}
+		}
 	}
-	return s
+	return out
 }
 
-func (e *Engine) endPathFrame() {
-	if e.frameOn && e.S != nil && !e.S.dead {
-		e.S.Pop()
-	}
-	e.frameOn = false
-	e.asserted = 0
-}
+var (
+	qcacheMu sync.RWMutex
+	qcache   = map[[2]uint64]string{}
+)
 
 func (e *Engine) note(verdict string, solver string, d time.Duration) {
 	e.sh.mu.Lock()
@@ -178,10 +189,40 @@ func (e *Engine) note(verdict string, solver string, d time.Duration) {
 	e.sh.mu.Unlock()
 }
 
-// query checks pc ∧ extra. timeoutMs applies to this query only.
+// query checks pc ∧ extra (on the relevant slice of pc unless a full model is wanted).
+// timeoutMs applies to this query only.
 func (e *Engine) query(extra *Term, wantModel bool, timeoutMs int) (string, map[string]uint64) {
-	s := e.sync()
+	terms := e.pc
+	if !wantModel {
+		terms = e.slice(extra)
+	}
+	var key [2]uint64
+	if !wantModel {
+		key = [2]uint64{0x1234567, 0x89abcdef}
+		for _, t := range terms {
+			// order-insensitive combination
+			key[0] += t.h1 * 0x9e3779b97f4a7c15
+			key[1] ^= mix(t.h2, 0x5555)
+		}
+		if extra != nil {
+			key[0] = mix(key[0], extra.h1)
+			key[1] = mix(key[1], extra.h2)
+		}
+		qcacheMu.RLock()
+		v, ok := qcache[key]
+		qcacheMu.RUnlock()
+		if ok {
+			e.sh.mu.Lock()
+			e.sh.St.Queries["cached-"+v]++
+			e.sh.mu.Unlock()
+			return v, nil
+		}
+	}
+	s := e.solver()
 	s.Push()
+	for _, t := range terms {
+		s.Assert(t)
+	}
 	if extra != nil {
 		s.Assert(extra)
 	}
@@ -190,6 +231,21 @@ func (e *Engine) query(extra *Term, wantModel bool, timeoutMs int) (string, map[
 	}
 	r, d := s.Check()
 	e.note(r, string(s.Kind), d)
+	if !wantModel && r != "unknown" {
+		qcacheMu.Lock()
+		qcache[key] = r
+		qcacheMu.Unlock()
+	}
+	if SlowLog != nil && d > 2*time.Second {
+		x := "<pc only>"
+		if extra != nil {
+			x = extra.Plain()
+		}
+		if len(x) > 400 {
+			x = x[:400]
+		}
+		fmt.Fprintf(SlowLog, "SLOW %.1fs %s slice=%d/%d %s: %s\n", d.Seconds(), r, len(terms), len(e.pc), e.cur.where(), x)
+	}
 	var m map[string]uint64
 	if r == "sat" && wantModel {
 		m = s.Model(e.vars)
@@ -200,6 +256,9 @@ func (e *Engine) query(extra *Term, wantModel bool, timeoutMs int) (string, map[
 	return r, m
 }
 
+// SlowLog, when set, receives a line for every query slower than 2 s.
+var SlowLog io.Writer
+
 // queryFallback asks a second solver (fresh context) for pc ∧ extra.
 func (e *Engine) queryFallback(extra *Term, wantModel bool, timeoutMs int) (string, map[string]uint64) {
 	if e.F != nil {
@@ -207,7 +266,11 @@ func (e *Engine) queryFallback(extra *Term, wantModel bool, timeoutMs int) (stri
 	}
 	e.F = NewSolver(CVC5, timeoutMs)
 	s := e.F
-	for _, p := range e.pc {
+	terms := e.pc
+	if !wantModel {
+		terms = e.slice(extra)
+	}
+	for _, p := range terms {
 		s.Assert(p)
 	}
 	if extra != nil {
@@ -317,9 +380,12 @@ func (e *Engine) concretize(t *Term, what string) uint64 {
 }
 
 func (e *Engine) queryValue(t *Term) (string, uint64) {
-	s := e.sync()
+	s := e.solver()
 	s.Push()
 	tmp := Var("cz!tmp", t.Sort)
+	for _, p := range e.slice(t) {
+		s.Assert(p)
+	}
 	s.Assert(Eq(tmp, t))
 	r, d := s.Check()
 	e.note(r, string(s.Kind), d)
@@ -395,11 +461,19 @@ func (e *Engine) assert(v value, label string) {
 	}
 	e.nontriv = true
 	neg := Not(c)
-	r, m := e.query(neg, true, e.cfg.AssertTimeMs)
+	var m map[string]uint64
+	r, _ := e.query(neg, false, e.cfg.AssertTimeMs)
 	used := "z3"
 	if r == "unknown" && e.cfg.FallbackMs > 0 {
-		r, m = e.queryFallback(neg, true, e.cfg.FallbackMs)
+		r, _ = e.queryFallback(neg, false, e.cfg.FallbackMs)
 		used = "cvc5"
+	}
+	if r == "sat" {
+		// full path condition, for a complete model
+		r, m = e.query(neg, true, e.cfg.AssertTimeMs)
+		if r == "unknown" && e.cfg.FallbackMs > 0 {
+			r, m = e.queryFallback(neg, true, e.cfg.FallbackMs)
+		}
 	} else if e.cfg.CrossCheck && r != "unknown" {
 		r2, _ := e.queryFallback(neg, false, e.cfg.FallbackMs)
 		if r2 != "unknown" && r2 != r {
